@@ -577,3 +577,272 @@ Proof.
   rewrite (others_same_ok npool pre post st st npool Rp Rq) by (intros a _; auto).
   rewrite Q3, P3, N.eqb_refl. destruct o; cbn [negb andb]; lia.
 Qed.
+
+(* ---------------------------------------------------------------------------------------- *)
+(* C14: the step contract S_C14 (all 9 clauses) never fires on the model *)
+(* listing and point value of the member map agree *)
+Lemma lookup_above k r : above ordN k r -> lookup (m_list r) k = None.
+Proof.
+  induction r as [|[k' s] r IH]; intros Ha; cbn [m_list]; [reflexivity|].
+  assert (L: k < k') by (apply N.ltb_lt; apply (Ha k' s); left; reflexivity).
+  assert (Ha': above ordN k r) by (intros k2 v2 Hin; apply (Ha k2 v2); right; exact Hin).
+  destruct (cur s) as [w|]; [|exact (IH Ha')].
+  unfold lookup. cbn [find fst]. rewrite (proj2 (N.eqb_neq k' k)) by lia. exact (IH Ha').
+Qed.
+Lemma lookup_m_list ms a : sorted ordN ms -> lookup (m_list ms) a = m_cur ms a.
+Proof.
+  intros Hs. induction Hs as [|k s r Ha Hr IH]; [reflexivity|].
+  unfold m_cur, getm. cbn [m_list].
+  assert (G: get ordN ((k, s) :: r) a = if a =? k then Some s else get ordN r a) by reflexivity. rewrite G. clear G.
+  fold (getm r a). fold (m_cur r a).
+  destruct (N.eqb_spec a k) as [->|Ne].
+  - destruct (cur s) as [w|] eqn:C.
+    + unfold lookup. cbn [find fst]. rewrite N.eqb_refl. reflexivity.
+    + rewrite (lookup_above k r Ha). reflexivity.
+  - destruct (cur s) as [w|] eqn:C.
+    + unfold lookup. cbn [find fst]. rewrite (proj2 (N.eqb_neq k a)) by congruence. exact IH.
+    + exact IH.
+Qed.
+
+(* replaying a diff list over a listing = the functional `explains` of the model *)
+Lemma lookup_filter_ne l a b :
+  lookup (filter (fun kv : N * N => negb (fst kv =? a)) l) b = if b =? a then None else lookup l b.
+Proof.
+  unfold lookup. induction l as [|[k w] r IH]; cbn [filter find fst]; [destruct (b =? a); reflexivity|].
+  destruct (k =? a) eqn:Ka; cbn [negb].
+  - apply N.eqb_eq in Ka. subst k. rewrite IH. destruct (b =? a) eqn:Ba; [reflexivity|].
+    rewrite N.eqb_sym, Ba. reflexivity.
+  - cbn [find fst]. destruct (k =? b) eqn:Kb; [|exact IH].
+    apply N.eqb_eq in Kb. subst k. rewrite Ka. reflexivity.
+Qed.
+Lemma lookup_set_w l a v b : lookup (set_w l a v) b = upd (lookup l) a v b.
+Proof.
+  unfold set_w, upd. destruct v as [w|].
+  - unfold lookup at 1. cbn [find fst]. destruct (N.eqb_spec a b) as [->|Ne].
+    + rewrite N.eqb_refl. reflexivity.
+    + rewrite (proj2 (N.eqb_neq b a)) by congruence. fold (lookup (filter (fun kv : N * N => negb (fst kv =? a)) l) b).
+      rewrite lookup_filter_ne. rewrite (proj2 (N.eqb_neq b a)) by congruence. reflexivity.
+  - rewrite lookup_filter_ne. reflexivity.
+Qed.
+Lemma apply_diffs_explains ds f g : explains ds f g -> forall l, (forall a, lookup l a = f a) ->
+  exists l', apply_diffs ds l = Some l' /\ forall a, lookup l' a = g a.
+Proof.
+  intros H. induction H as [f g E|a o n r f g Ha Hr IH]; intros l Hl; cbn [apply_diffs].
+  - exists l. split; [reflexivity|]. intros a. rewrite Hl, E. reflexivity.
+  - rewrite Hl, Ha, (proj2 (optN_eqb_eq o o) eq_refl).
+    apply IH. intros b. rewrite lookup_set_w. unfold upd. destruct (b =? a); [reflexivity|apply Hl].
+Qed.
+
+Definition group_obs (o : obs) (st : state) : Prop :=
+  ob_admin o = admin st /\ ob_hooks o = hooks st /\ ob_list o = q_list_all st /\ ob_total o = q_total st None.
+
+Lemma optN_eqb_refl o : optN_eqb o o = true.
+Proof. apply optN_eqb_eq. reflexivity. Qed.
+Lemma nlist4_eqb_refl l : nlist_eqb l l = true.
+Proof. induction l as [|x r IH]; cbn; [reflexivity|]. rewrite N.eqb_refl. exact IH. Qed.
+Lemma nn_list_eqb_refl l : nn_list_eqb l l = true.
+Proof. induction l as [|x r IH]; cbn; [reflexivity|]. fold (pair_eqb x x). unfold pair_eqb at 1. rewrite !N.eqb_refl. exact IH. Qed.
+Lemma perm_eqb_refl l : perm_eqb l l = true.
+Proof. apply nlist4_eqb_refl. Qed.
+Lemma diff_eqb_refl d : diff_eqb d d = true.
+Proof. destruct d as [[a o] n]. unfold diff_eqb. rewrite N.eqb_refl, !optN_eqb_refl. reflexivity. Qed.
+Lemma diffs_eqb_refl l : list_eqb diff_eqb l l = true.
+Proof. induction l as [|x r IH]; cbn [list_eqb]; [reflexivity|]. rewrite diff_eqb_refl. exact IH. Qed.
+Lemma same_weights_ok npool l1 l2 : (forall a, lookup l1 a = lookup l2 a) -> same_weights npool l1 l2 = true.
+Proof. intros H. unfold same_weights. apply forallb_forall. intros a _. rewrite H. apply optN_eqb_refl. Qed.
+Lemma hook_part_hook_msgs st ds : hook_part (hook_msgs st ds) = map (fun h => (h, ds)) (hooks st).
+Proof. unfold hook_msgs. induction (hooks st) as [|h r IH]; cbn [map hook_part]; [reflexivity|rewrite IH; reflexivity]. Qed.
+Lemma is_admin_obs pre st sender : ob_admin pre = admin st -> is_admin st sender = true -> optN_eqb (ob_admin pre) (Some sender) = true.
+Proof.
+  intros -> H. unfold is_admin in H. destruct (admin st) as [a|]; [|discriminate]. apply N.eqb_eq in H. subst. apply optN_eqb_refl.
+Qed.
+
+(* the tail of S_C14 once the notifications are hook_msgs st ds with ds explaining the change *)
+Lemma s_c14_notified npool pre post st st' ds (stake_c ok : bool) :
+  group_obs pre st -> group_obs post st' -> sorted ordN (members st) -> sorted ordN (members st') ->
+  explains ds (m_cur (members st)) (m_cur (members st')) ->
+  (stake_c = true -> exists a o n, ds = [(a, o, n)] /\ o <> n) ->
+  hooks st <> [] ->
+  match hook_part (hook_msgs st ds) with
+  | [] => match ob_hooks pre with [] => 0 | _ => if negb (negb (same_weights npool (ob_list pre) (ob_list post))) then 0 else 4 end
+  | (_, ds0) :: _ =>
+      if negb (perm_eqb (map fst (hook_part (hook_msgs st ds))) (ob_hooks pre)) then 5
+      else if negb (forallb (fun x => list_eqb diff_eqb (snd x) ds0) (hook_part (hook_msgs st ds))) then 6
+      else match apply_diffs ds0 (ob_list pre) with
+           | None => 7
+           | Some l => if ok && negb (same_weights npool l (ob_list post)) then 8
+                       else if stake_c && negb (match ds0 with [(a, o', n')] => negb (optN_eqb o' n') | _ => false end) then 9
+                       else 0
+           end
+  end = 0.
+Proof.
+  intros (P1 & P2 & P3 & P4) (Q1 & Q2 & Q3 & Q4) S1 S2 Hex Hst Hne.
+  rewrite hook_part_hook_msgs. destruct (hooks st) as [|h r] eqn:Hk; [exfalso; apply Hne; reflexivity|].
+  cbn [map]. rewrite P2. change (h :: map fst (map (fun h0 => (h0, ds)) r)) with (map fst (map (fun h0 : N => (h0, ds)) (h :: r))).
+  rewrite map_map. cbn [fst]. rewrite map_id. rewrite (perm_eqb_refl (h :: r)). cbn [negb].
+  assert (F: forallb (fun x : N * list diff => list_eqb diff_eqb (snd x) ds) ((h, ds) :: map (fun h0 => (h0, ds)) r) = true).
+  { apply forallb_forall. intros x Hin. change ((h, ds) :: map (fun h0 => (h0, ds)) r) with (map (fun h0 : N => (h0, ds)) (h :: r)) in Hin.
+    apply in_map_iff in Hin. destruct Hin as (y & <- & _). apply diffs_eqb_refl. }
+  rewrite F. cbn [negb].
+  destruct (apply_diffs_explains _ _ _ Hex (ob_list pre)) as (l' & -> & Hl').
+  { intros a. rewrite P3. apply lookup_m_list. exact S1. }
+  rewrite (same_weights_ok npool l' (ob_list post)) by (intros a; rewrite Hl', Q3; symmetry; apply lookup_m_list; exact S2).
+  cbn [negb]. rewrite andb_false_r.
+  destruct stake_c; [|reflexivity]. destruct (Hst eq_refl) as (a & o & n & -> & Hon). cbn [andb].
+  destruct (optN_eqb o n) eqn:E; [apply optN_eqb_eq in E; contradiction|reflexivity].
+Qed.
+
+Lemma step_admin_frame st blk sender o st' ms : step st blk sender o = Ok (st', ms) ->
+  match o with UpdateAdmin _ => True | _ => admin st' = admin st end.
+Proof.
+  intros Hs. destruct o as [a|a|a|add rem|funds|n| |from n pok|tok n pok|n]; cbn [step] in Hs; try exact I.
+  - destruct a as [x|]; [|discriminate]. destruct (is_admin st sender); [|discriminate]. cbn [negb] in Hs.
+    destruct (mem x (hooks st)); [discriminate|]. inv Hs. reflexivity.
+  - destruct a as [x|]; [|discriminate]. destruct (is_admin st sender); [|discriminate]. cbn [negb] in Hs.
+    destruct (mem x (hooks st)); [|discriminate]. inv Hs. reflexivity.
+  - destruct (is_stake st) eqn:K; [discriminate|]. unfold update_members in Hs.
+    destruct (validate_members add); [|discriminate]. destruct (has_dup (sort_members l)); [discriminate|].
+    destruct (is_admin st sender); [|discriminate]. cbn [negb] in Hs.
+    destruct (validate_args rem); [|discriminate]. destruct (cur (total_s st)); [|discriminate].
+    destruct (add_loop _ _ _ _ _) as [[[? ?] ?]|]; [|discriminate].
+    destruct (remove_loop _ _ _ _ _) as [[[? ?] ?]|]; [|discriminate]. inv Hs. reflexivity.
+  - destruct (is_stake st) eqn:K; [|discriminate]. cbn [negb] in Hs.
+    destruct (c_token (cfg st)); [|discriminate]. destruct (must_pay funds d); [|discriminate].
+    unfold bond in Hs. destruct (add128 _ _); [|discriminate]. exact (proj1 (um_frame _ _ _ _ _ _ Hs)).
+  - destruct (is_stake st) eqn:K; [|discriminate]. cbn [negb] in Hs. unfold unbond in Hs.
+    destruct (sub128 _ _); [|discriminate]. destruct (duration_after _ _); [|discriminate]. exact (proj1 (um_frame _ _ _ _ _ _ Hs)).
+  - destruct (is_stake st) eqn:K; [|discriminate]. cbn [negb] in Hs. unfold claim in Hs.
+    destruct (u128max <? _); [discriminate|]. destruct (_ =? 0); [discriminate|]. inv Hs. reflexivity.
+  - destruct (is_stake st) eqn:K; [|discriminate]. cbn [negb] in Hs.
+    destruct pok; [|discriminate]. cbn [negb] in Hs. destruct from; [|discriminate].
+    destruct (c_token (cfg st)); [discriminate|]. destruct (a =? sender); [|discriminate].
+    unfold bond in Hs. destruct (add128 _ _); [|discriminate]. exact (proj1 (um_frame _ _ _ _ _ _ Hs)).
+  - discriminate.
+  - discriminate.
+Qed.
+Lemma no_hook_part ms : no_hook_msg ms -> hook_part ms = [].
+Proof.
+  induction ms as [|m r IH]; intros H; cbn [hook_part]; [reflexivity|]. destruct m as [h ds|t to n].
+  - exfalso. apply (H h ds). left. reflexivity.
+  - apply IH. intros h ds Hin. apply (H h ds). right. exact Hin.
+Qed.
+
+Lemma members_same_ok pre post st st' : group_obs pre st -> group_obs post st' ->
+  members st' = members st -> total_s st' = total_s st -> members_same pre post = true.
+Proof.
+  intros (_ & _ & P3 & P4) (_ & _ & Q3 & Q4) Hm Ht. unfold members_same.
+  rewrite P3, Q3, P4, Q4. unfold q_list_all, q_total. rewrite Hm, Ht, nn_list_eqb_refl, N.eqb_refl. reflexivity.
+Qed.
+
+Lemma s_c14_stake_op npool pre post st st' who sender o ms :
+  group_obs pre st -> group_obs post st' -> sorted ordN (members st) -> sorted ordN (members st') ->
+  admin st' = admin st -> hooks st' = hooks st ->
+  hook_shape st st' who ms -> (forall b, b <> who -> m_cur (members st') b = m_cur (members st) b) ->
+  match o with Bond _ | Unbond _ | Receive _ _ _ => True | _ => False end ->
+  s_c14 true npool pre post sender o true true ms = 0.
+Proof.
+  intros Rp Rq S1 S2 AF HH Sh Oth Ho. pose proof Rp as (P1 & P2 & P3 & P4). pose proof Rq as (Q1 & Q2 & Q3 & Q4).
+  unfold s_c14. cbv zeta.
+  assert (HQ: nlist_eqb (ob_hooks pre) (ob_hooks post) = true) by (rewrite P2, Q2, HH; apply nlist4_eqb_refl).
+  assert (HA: optN_eqb (ob_admin pre) (ob_admin post) = true) by (rewrite P1, Q1, AF; apply optN_eqb_refl).
+  rewrite HQ, HA. cbn [andb orb negb].
+  assert (Tail:
+    match hook_part ms with
+    | [] => match ob_hooks pre with [] => 0 | _ => if negb (negb (same_weights npool (ob_list pre) (ob_list post))) then 0 else 4 end
+    | (_, ds0) :: _ =>
+        if negb (perm_eqb (map fst (hook_part ms)) (ob_hooks pre)) then 5
+        else if negb (forallb (fun x => list_eqb diff_eqb (snd x) ds0) (hook_part ms)) then 6
+        else match apply_diffs ds0 (ob_list pre) with
+             | None => 7
+             | Some l => if true && negb (same_weights npool l (ob_list post)) then 8
+                         else if true && negb (match ds0 with [(a, o', n')] => negb (optN_eqb o' n') | _ => false end) then 9
+                         else 0
+             end
+    end = 0).
+  { destruct Sh as [(-> & Hm & Ht)|(Hne & ->)].
+    - cbn [hook_part]. destruct (ob_hooks pre); [reflexivity|].
+      rewrite (same_weights_ok npool (ob_list pre) (ob_list post)); [reflexivity|].
+      intros a. rewrite P3, Q3. unfold q_list_all. rewrite Hm. reflexivity.
+    - destruct (list_eq_dec N.eq_dec (hooks st) []) as [E|NE].
+      + unfold hook_msgs. rewrite P2, E. cbn [map hook_part]. reflexivity.
+      + apply (s_c14_notified npool pre post st st' _ true true Rp Rq S1 S2); [| |exact NE].
+        * constructor; [reflexivity|]. constructor. intros a. unfold upd.
+          destruct (N.eqb_spec a who) as [->|Na]; [reflexivity|apply Oth; exact Na].
+        * intros _. eexists _, _, _. split; [reflexivity|]. intros C. apply Hne. symmetry. exact C. }
+  destruct o; try contradiction; exact Tail.
+Qed.
+
+Theorem s_c14_sound npool pre post st blk sender o st' ms top :
+  WInv st top -> top <= height blk -> group_obs pre st -> group_obs post st' ->
+  step st blk sender o = Ok (st', ms) ->
+  s_c14 (is_stake st) npool pre post sender o true true ms = 0.
+Proof.
+  intros HW Hle Rp Rq Hs.
+  pose proof (step_spec _ _ _ _ _ _ _ HW Hle Hs) as SO. destruct (so_inv _ _ _ _ _ SO) as (HI' & _).
+  pose proof (hooks_spec _ _ _ _ _ _ _ HW Hle Hs) as HK.
+  destruct (step_hooks _ _ _ _ _ _ Hs) as (_ & HH).
+  assert (S1: sorted ordN (members st)) by (destruct HW as (HI & _); apply (i_sorted _ _ HI)).
+  assert (S2: sorted ordN (members st')) by (apply (i_sorted _ _ HI')).
+  pose proof Rp as (P1 & P2 & P3 & P4). pose proof Rq as (Q1 & Q2 & Q3 & Q4).
+  unfold s_c14. cbv zeta.
+  destruct o as [a|a|a|add rem|funds|n| |from n pok|tok n pok|n].
+  - (* UpdateAdmin *)
+    destruct HK as (Hn & Hm & Ht). rewrite (members_same_ok pre post st st' Rp Rq Hm Ht).
+    rewrite P2, Q2, HH, nlist4_eqb_refl.
+    cbn [step] in Hs.
+    destruct a as [[x|]|]; try discriminate; destruct (is_admin st sender) eqn:IA; try discriminate; inv Hs;
+      rewrite (is_admin_obs pre st sender P1 IA); rewrite Q1; cbn [with_core admin]; rewrite ?optN_eqb_refl;
+      rewrite ?orb_true_r; cbn [andb negb]; rewrite ?andb_false_r; cbn [hook_part]; reflexivity.
+  - (* AddHook *)
+    destruct HK as (Hn & Hm & Ht). rewrite (members_same_ok pre post st st' Rp Rq Hm Ht).
+    cbn [step] in Hs. destruct a as [x|]; [|discriminate]. destruct (is_admin st sender) eqn:IA; [|discriminate]. cbn [negb] in Hs.
+    destruct (mem x (hooks st)) eqn:M; [discriminate|]. inv Hs.
+    rewrite (is_admin_obs pre st sender P1 IA), P1, P2, Q1, Q2. cbn [with_core admin hooks].
+    rewrite optN_eqb_refl, M, perm_eqb_refl, orb_true_r. cbn [andb negb]. rewrite andb_false_r. cbn [hook_part]. reflexivity.
+  - (* RemoveHook *)
+    destruct HK as (Hn & Hm & Ht). rewrite (members_same_ok pre post st st' Rp Rq Hm Ht).
+    cbn [step] in Hs. destruct a as [x|]; [|discriminate]. destruct (is_admin st sender) eqn:IA; [|discriminate]. cbn [negb] in Hs.
+    destruct (mem x (hooks st)) eqn:M; [|discriminate]. inv Hs.
+    rewrite (is_admin_obs pre st sender P1 IA), P1, P2, Q1, Q2. cbn [with_core admin hooks].
+    rewrite optN_eqb_refl, M, perm_eqb_refl, orb_true_r. cbn [andb negb]. rewrite andb_false_r. cbn [hook_part]. reflexivity.
+  - (* UpdateMembers *)
+    pose proof (step_admin_frame _ _ _ _ _ _ Hs) as AF. cbv beta iota in AF.
+    cbn [step] in Hs. destruct (is_stake st) eqn:K; [discriminate|].
+    destruct HW as (HI & HSt).
+    destruct (update_members_spec _ _ _ _ _ _ _ top HI Hle Hs) as (_ & IA & _).
+    destruct HK as (ds & -> & X).
+    assert (HQ: nlist_eqb (ob_hooks pre) (ob_hooks post) = true) by (rewrite P2, Q2, HH; apply nlist4_eqb_refl).
+    rewrite (is_admin_obs pre st sender P1 IA), P1, Q1, AF, HQ, optN_eqb_refl.
+    cbn [andb negb orb]. rewrite andb_false_r.
+    destruct (list_eq_dec N.eq_dec (hooks st) []) as [E|NE].
+    + unfold hook_msgs. rewrite P2, E. cbn [map hook_part]. reflexivity.
+    + apply (s_c14_notified npool pre post st st' ds false true Rp Rq S1 S2 X); [intros C; discriminate C|exact NE].
+  - (* Bond *)
+    pose proof (step_admin_frame _ _ _ _ _ _ Hs) as AF. cbv beta iota in AF. destruct HK as (Sh & Oth).
+    cbn [step] in Hs. destruct (is_stake st) eqn:K; [|discriminate].
+    exact (s_c14_stake_op npool pre post st st' sender sender (Bond funds) ms Rp Rq S1 S2 AF HH Sh Oth I).
+  - (* Unbond *)
+    pose proof (step_admin_frame _ _ _ _ _ _ Hs) as AF. cbv beta iota in AF. destruct HK as (Sh & Oth).
+    cbn [step] in Hs. destruct (is_stake st) eqn:K; [|discriminate].
+    exact (s_c14_stake_op npool pre post st st' sender sender (Unbond n) ms Rp Rq S1 S2 AF HH Sh Oth I).
+  - (* Claim *)
+    pose proof (step_admin_frame _ _ _ _ _ _ Hs) as AF. cbv beta iota in AF. destruct HK as (Hn & Hm & Ht).
+    cbn [step] in Hs. destruct (is_stake st) eqn:K; [|discriminate].
+    assert (HQ: nlist_eqb (ob_hooks pre) (ob_hooks post) = true) by (rewrite P2, Q2, HH; apply nlist4_eqb_refl).
+    rewrite P1, Q1, AF, HQ, optN_eqb_refl, (no_hook_part _ Hn). reflexivity.
+  - (* Receive *)
+    pose proof (step_admin_frame _ _ _ _ _ _ Hs) as AF. cbv beta iota in AF.
+    cbn [step] in Hs. destruct (is_stake st) eqn:K; [|discriminate]. cbn [negb] in Hs.
+    destruct pok; [|discriminate]. cbn [negb] in Hs. destruct from as [u|]; [|discriminate]. destruct HK as (Sh & Oth).
+    exact (s_c14_stake_op npool pre post st st' u sender (Receive (Some u) n true) ms Rp Rq S1 S2 AF HH Sh Oth I).
+  - cbn [step] in Hs. discriminate.
+  - cbn [step] in Hs. discriminate.
+Qed.
+
+Theorem s_c14_sound_refused npool pre post st sender o stake_c :
+  group_obs pre st -> group_obs post st -> s_c14 stake_c npool pre post sender o false false [] = 0.
+Proof.
+  intros Rp Rq. pose proof Rp as (P1 & P2 & P3 & P4). pose proof Rq as (Q1 & Q2 & Q3 & Q4).
+  unfold s_c14. cbv zeta. rewrite (members_same_ok pre post st st Rp Rq eq_refl eq_refl).
+  rewrite P1, P2, Q1, Q2, optN_eqb_refl, nlist4_eqb_refl, orb_true_r. reflexivity.
+Qed.
